@@ -19,11 +19,14 @@ def gen_net(rng, base):
     lines = ["LOG on", "DUP %s" % rng.choice(["on", "off"])]
     for i in range(n):
         lines.append("NODE %d 4:%d %s" % (i, base + 10 + i, nc.hexs("vm")))
-    maxd = rng.choice([1, 20, 300, 600, 900])
+    maxd = rng.choice([1, 20, 300, 600, 900, 950])
+    slow = rng.random() < 0.15       # every link near one second: a round trip of just under the 2 s probe wait
+    if slow:
+        maxd = 975
     for i in range(n):
         for j in range(n):
             if i != j:
-                lines.append("DELAY %d %d %d" % (i, j, rng.choice([1, maxd // 2 + 1, maxd])))
+                lines.append("DELAY %d %d %d" % (i, j, rng.choice([900, 950, 975]) if slow else rng.choice([1, maxd // 2 + 1, maxd])))
     now = 0
     starts = []
     with_service = rng.random() < 0.6
@@ -39,7 +42,9 @@ def gen_net(rng, base):
             k = rng.choice([1, 2])
             gap = max(settle, k * 1800000 + rng.choice([-3000, 0, 500, 1500, 2500, 60000]) - (now - starts[0]) % 1800000)
         else:
-            gap = settle + rng.choice([0, 1, 777, 5000])
+            gap = settle + rng.choice([0, 1, 137, 405, 449, 499, 777, 5000])
+            if slow:
+                gap += (rng.choice([251, 405, 449, 499]) - (now + gap)) % 1000     # the phase of the start instant within its second   # also fractional-second phases (timer rounding)
         now += gap
         lines.append("ADV %d" % now)
     now += 10 * (2000 + 2 * maxd)
